@@ -6,7 +6,14 @@
 package main
 
 import (
+	"bytes"
+	"context"
+	"crypto/sha256"
+	"encoding/hex"
 	"encoding/json"
+	"errors"
+	"net/http"
+	"net/http/httptest"
 	"flag"
 	"fmt"
 	"math"
@@ -19,6 +26,7 @@ import (
 	"github.com/pingcap/kvproto/pkg/metapb"
 	"github.com/tikv/pd/pkg/typeutil"
 	"github.com/tikv/pd/server"
+	"github.com/tikv/pd/server/api"
 	"github.com/tikv/pd/server/cluster"
 	"github.com/tikv/pd/server/config"
 	"github.com/tikv/pd/server/core"
@@ -85,6 +93,7 @@ type op struct {
 type caseIn struct {
 	Boot conf
 	Ops  []op
+	Via  string `json:",omitempty"` // "api": every operation that can be expressed as an HTTP request goes through the real handler
 }
 type caseRec struct {
 	In  caseIn
@@ -181,6 +190,10 @@ type world struct {
 	R      *res.Result
 	// a rule write of this case was applied but reported failed: storage is ahead of what is served
 	ruleUnknown bool
+	// the real HTTP API handler (server/api) of this server, driven in-process
+	api   http.Handler
+	steps  []jstep // requests of the current API-path case
+	forced *jstep  // replay: send exactly this recorded request
 }
 
 func group(key string) (string, bool) {
@@ -211,6 +224,12 @@ func newWorld() (*world, error) {
 	w.meta = w.rc.GetConfig()
 	w.self = x.Cfg.ClientUrls
 	w.base = w.s.GetConfig()
+	h, _, err := api.NewHandler(context.Background(), w.s)
+	if err != nil {
+		x.Close()
+		return nil, err
+	}
+	w.api = h
 	return w, nil
 }
 
@@ -440,6 +459,243 @@ func (w *world) errRes(err error) string {
 	}
 	w.notes["unclassified error: "+m] = true
 	return "RBad"
+}
+
+// ---------- the API path: get -> unmarshal the request into what the getter returned -> set (server/api/config.go) ----------
+type jstep struct {
+	Path, Body  string
+	Code        int
+	Res         string
+	Before      string // full served configuration (JSON) before the request ...
+	After       string // ... and after it
+	Served      conf
+	Reload      conf
+}
+
+func (w *world) fullServed() string {
+	cfg := w.s.GetConfig()
+	cfg.Schedule.SchedulersPayload = nil
+	b, err := json.Marshal(map[string]interface{}{"schedule": cfg.Schedule, "replication": cfg.Replication, "pd-server": cfg.PDServerCfg,
+		"replication-mode": cfg.ReplicationMode, "label-property": cfg.LabelProperty, "cluster-version": cfg.ClusterVersion})
+	if err != nil {
+		panic(err)
+	}
+	return string(b)
+}
+
+func digest(s string) string {
+	h := sha256.Sum256([]byte(s))
+	return hex.EncodeToString(h[:8])
+}
+
+func (w *world) post(path string, body []byte) (int, string) {
+	req := httptest.NewRequest("POST", "/pd/api/v1"+path, bytes.NewReader(body))
+	rec := httptest.NewRecorder()
+	w.api.ServeHTTP(rec, req)
+	return rec.Code, rec.Body.String()
+}
+
+func mustJSON(v interface{}) []byte {
+	b, err := json.Marshal(v)
+	if err != nil {
+		panic(err)
+	}
+	return b
+}
+
+// sectionRequest expresses "make this section equal to target" as an API request: when exactly one top-level item differs
+// from what is served (and the coin says so) as POST /config {"<prefix>.<item>": value}, otherwise as the full section body
+// for its own endpoint (endpoint "" = there is none).  ok=false: the request would not mean the same as the setter call
+// (an omitempty item that has to go back to its zero value, a label list that does not survive the "a,b" encoding).
+func (w *world) sectionRequest(r *rng.R, prefix, endpoint string, served, target, scratch interface{}, avoidKey string) (path string, body []byte, ok bool) {
+	full := mustJSON(target)
+	var sm, tm map[string]json.RawMessage
+	json.Unmarshal(mustJSON(served), &sm)
+	json.Unmarshal(full, &tm)
+	var diff []string
+	for k, v := range tm {
+		if !bytes.Equal(v, sm[k]) {
+			diff = append(diff, k)
+		}
+	}
+	for k := range sm {
+		if _, in := tm[k]; !in {
+			return "", nil, false
+		}
+	}
+	// would unmarshalling the body into a copy of the served section give the target?
+	if err := json.Unmarshal(mustJSON(served), scratch); err != nil {
+		return "", nil, false
+	}
+	if err := json.Unmarshal(full, scratch); err != nil || !bytes.Equal(mustJSON(scratch), full) {
+		return "", nil, false
+	}
+	if len(diff) == 1 && diff[0] != avoidKey && (endpoint == "" || avoidKey != "" || r == nil || r.Pct(50)) {
+		return "/config", mustJSON(map[string]json.RawMessage{prefix + "." + diff[0]: tm[diff[0]]}), true
+	}
+	if endpoint == "" || avoidKey != "" {
+		return "", nil, false
+	}
+	return endpoint, full, true
+}
+
+// apiRequest turns an operation into the request the HTTP API would receive; ok=false: use the setter (recorded as such)
+func (w *world) apiRequest(r *rng.R, o op, tracked bool) (path string, body []byte, ok bool) {
+	switch o.K {
+	case "sched":
+		t := w.s.GetScheduleConfig()
+		w.applySched(t, o.S)
+		t.SchedulersPayload = nil
+		sv := w.s.GetScheduleConfig()
+		return w.sectionRequest(r, "schedule", "/config/schedule", sv, t, &config.ScheduleConfig{}, "")
+	case "repl":
+		t := w.s.GetReplicationConfig()
+		w.applyRepl(t, o.R)
+		if j := strings.Join(o.R.Labels, ","); len(o.R.Labels) > 0 && (j == "" || len(strings.Split(j, ",")) != len(o.R.Labels)) {
+			return "", nil, false // [""] or a label with a comma: the "a,b" encoding of the API cannot say it
+		}
+		avoid := ""
+		if len(o.R.Labels) == 0 && tracked {
+			// JSON can only say "location-labels": "" which becomes an EMPTY list, the setter of the harness (and the boot
+			// configuration) use nil; SetReplicationConfig compares the default rule's labels with reflect.DeepEqual, which
+			// tells the two apart and then refuses later (valid) changes: observation outside the statement (notes/C18.md),
+			// kept out of the model-tracked stream, present in the model-free one
+			avoid = "location-labels"
+		}
+		return w.sectionRequest(r, "replication", "/config/replicate", w.s.GetReplicationConfig(), t, &config.ReplicationConfig{}, avoid)
+	case "pd":
+		t := w.s.GetPDServerConfig()
+		w.applyPD(t, o.P)
+		return w.sectionRequest(r, "pd-server", "", w.s.GetPDServerConfig(), t, &config.PDServerConfig{}, "")
+	case "setlabel", "dellabel":
+		act := map[string]string{"setlabel": "set", "dellabel": "delete"}[o.K]
+		return "/config/label-property", mustJSON(map[string]string{"action": act, "type": o.T, "label-key": o.L, "label-value": o.V}), true
+	case "version":
+		if r != nil && r.Pct(50) {
+			return "/config", mustJSON(map[string]string{"cluster-version": o.Ver}), true
+		}
+		return "/config/cluster-version", mustJSON(map[string]string{"cluster-version": o.Ver}), true
+	case "mode":
+		// (before fix 9b30bb0 the getter handed out the served pointer and these requests were kept out of the model-tracked stream)
+		t := *w.s.GetReplicationModeConfig() // a copy made here: the harness itself must never write through what a getter returns
+		w.applyMode(&t, o.M)
+		sv := *w.s.GetReplicationModeConfig()
+		if sv.ReplicationMode != t.ReplicationMode && sv.DRAutoSync == t.DRAutoSync && r != nil && r.Pct(40) {
+			return "/config", mustJSON(map[string]string{"replication-mode.replication-mode": t.ReplicationMode}), true
+		}
+		if sv.ReplicationMode == t.ReplicationMode && sv.DRAutoSync.LabelKey != t.DRAutoSync.LabelKey && r != nil && r.Pct(40) {
+			return "/config", mustJSON(map[string]string{"replication-mode.dr-auto-sync.label-key": t.DRAutoSync.LabelKey}), true
+		}
+		return "/config/replication-mode", mustJSON(t), true
+	}
+	return "", nil, false
+}
+
+// narrow keeps one of the changed items of a pd-server operation: that section can only be changed item by item over HTTP
+func (w *world) narrow(r *rng.R, o op, cur conf) op {
+	if o.K == "sched" && r.Pct(35) && strings.Join(o.S.Scheds, ",") != strings.Join(cur.Sched.Scheds, ",") {
+		// only the scheduler list changes: goes out as POST /config {"schedule.schedulers-v2": [...]}, i.e. is unmarshalled
+		// into the Schedule section of Server.GetConfig()
+		c := cur.Sched
+		c.Scheds = o.S.Scheds
+		c.Dis = make([]bool, 6)
+		o.S = c
+		return o
+	}
+	if o.K != "pd" {
+		return o
+	}
+	var ch []int
+	if o.P.Dash != cur.PD.Dash {
+		ch = append(ch, 0)
+	}
+	if o.P.Digit != cur.PD.Digit {
+		ch = append(ch, 1)
+	}
+	if o.P.Trace != cur.PD.Trace {
+		ch = append(ch, 2)
+	}
+	if o.P.Key != cur.PD.Key {
+		ch = append(ch, 3)
+	}
+	if len(ch) <= 1 {
+		return o
+	}
+	keep := ch[r.Intn(len(ch))]
+	p := cur.PD
+	switch keep {
+	case 0:
+		p.Dash = o.P.Dash
+	case 1:
+		p.Digit = o.P.Digit
+	case 2:
+		p.Trace = o.P.Trace
+	case 3:
+		p.Key = o.P.Key
+	}
+	o.P = p
+	return o
+}
+
+// execAPI is exec through the real HTTP handler where the operation can be expressed as a request
+// leaderChange does what a newly elected leader does with the configuration: the served PersistOptions are reloaded from
+// storage (Server.reloadConfigFromKV) and the RaftCluster is started again (fresh RuleManager and ModeManager from storage).
+// Recorded as a step whose reference projection is what was served BEFORE (for requests it is the reloaded projection).
+func (w *world) leaderChange(definite bool) snap {
+	before := w.fullServed()
+	prev := w.snapshot("ROk")
+	w.rc.Stop()
+	if err := w.s.GetPersistOptions().Reload(w.st); err != nil {
+		panic(err)
+	}
+	if err := w.rc.Start(w.s); err != nil {
+		panic(err)
+	}
+	sn := w.snapshot("ROk")
+	path := "leader-change"
+	if !definite {
+		path = "leader-change-after-unknown-write" // a write was applied but reported failed earlier: storage may be ahead
+	}
+	w.steps = append(w.steps, jstep{Path: path, Res: "ROk", Before: before, After: w.fullServed(), Served: sn.Served, Reload: prev.Served})
+	if w.R != nil {
+		w.R.Count("api-path:" + path)
+	}
+	return sn
+}
+
+func (w *world) execAPI(r *rng.R, o op, tracked bool) snap {
+	if o.K == "reload" {
+		return w.leaderChange(o.F.Kind == 0)
+	}
+	path, body, ok := w.apiRequest(r, o, tracked)
+	if w.forced != nil {
+		path, body, ok = w.forced.Path, []byte(w.forced.Body), true
+	}
+	if !ok {
+		before := w.fullServed()
+		sn := w.exec(o)
+		w.steps = append(w.steps, jstep{Path: "setter:" + o.K, Res: strings.Fields(strings.TrimPrefix(sn.Text, "(Obs "))[0], Before: before, After: w.fullServed(),
+			Served: sn.Served, Reload: sn.Reload})
+		return sn
+	}
+	before := w.fullServed()
+	plan := map[string]kvx14.Kind{}
+	if o.F.On {
+		plan[kvx14.PlanKey(o.F.G, o.F.Idx)] = []kvx14.Kind{kvx14.FailBefore, kvx14.FailAfter}[o.F.Kind]
+	}
+	w.kb.Arm(plan)
+	code, resp := w.post(path, body)
+	w.kb.Arm(nil)
+	res := "ROk"
+	if code != http.StatusOK {
+		res = w.errRes(errors.New(resp))
+	}
+	sn := w.snapshot(res)
+	w.steps = append(w.steps, jstep{Path: path, Body: string(body), Code: code, Res: res, Before: before, After: w.fullServed(), Served: sn.Served, Reload: sn.Reload})
+	if w.R != nil {
+		w.R.Count("api-path:" + path)
+	}
+	return sn
 }
 
 func (w *world) exec(o op) snap {
@@ -698,7 +954,8 @@ func (w *world) goSide(c *caseRec, o op, prev, cur snap, r string) {
 
 func (w *world) runCase(in caseIn, r *rng.R, nops int, malformed bool, useEtcd bool) caseRec {
 	w.reset(in.Boot, useEtcd)
-	c := caseRec{In: caseIn{Boot: in.Boot}}
+	w.steps = nil
+	c := caseRec{In: caseIn{Boot: in.Boot, Via: in.Via}}
 	prev := w.snapshot("ROk")
 	c.Obs = append(c.Obs, prev.Text)
 	w.ruleUnknown = false
@@ -706,7 +963,12 @@ func (w *world) runCase(in caseIn, r *rng.R, nops int, malformed bool, useEtcd b
 		if o.K == "repl" && o.F.On && o.F.G == "rule" && o.F.Kind == 1 {
 			w.ruleUnknown = true
 		}
-		cur := w.exec(o)
+		var cur snap
+		if in.Via == "api" {
+			cur = w.execAPI(r, o, true)
+		} else {
+			cur = w.exec(o)
+		}
 		c.In.Ops = append(c.In.Ops, o)
 		c.Obs = append(c.Obs, cur.Text)
 		w.goSide(&c, o, prev, cur, strings.Fields(strings.TrimPrefix(cur.Text, "(Obs "))[0])
@@ -719,9 +981,62 @@ func (w *world) runCase(in caseIn, r *rng.R, nops int, malformed bool, useEtcd b
 		return c
 	}
 	for k := 0; k < nops; k++ {
-		step(gen(r, prev.Served, malformed && r.Pct(40)))
+		o := gen(r, prev.Served, malformed && r.Pct(40))
+		if in.Via == "api" {
+			o = w.narrow(r, o, prev.Served)
+		}
+		step(o)
 	}
 	return c
+}
+
+// runFree: a history of HTTP requests only (replication-mode requests included), no model involved: recorded are, around
+// every request, the full served configuration and the served / reloaded projections
+type freeRec struct {
+	Via   string
+	Boot  conf
+	Ops   []op
+	Steps []jstep
+}
+
+func (w *world) runFree(boot conf, r *rng.R, nops int, useEtcd bool) freeRec {
+	w.reset(boot, useEtcd)
+	w.steps = nil
+	f := freeRec{Via: "api-free", Boot: boot}
+	cur := w.snapshot("ROk").Served
+	unknown := 0
+	for k := 0; k < nops; k++ {
+		if r.Pct(12) {
+			o := op{K: "reload", F: fault{Kind: unknown}} // F.Kind 1 = after a write with unknown outcome
+			cur = w.execAPI(r, o, false).Served
+			f.Ops = append(f.Ops, o)
+			continue
+		}
+		o := gen(r, cur, r.Pct(35))
+		if r.Pct(35) {
+			m := rmode{Mode: pickS(r, "majority", "dr-auto-sync", "dr-auto-sync", "DR_AUTO_SYNC"), Label: pickS(r, "zone", "dc", "")}
+			if r.Pct(45) {
+				m.Mode = pickS(r, "bogus", "", "dr auto sync")
+			}
+			o = op{K: "mode", M: m, F: genFault(r, []string{"config", "config", "mode"}, 2, 30)}
+		}
+		o = w.narrow(r, o, cur)
+		if o.F.On && o.F.Kind == 1 {
+			unknown = 1
+		}
+		cur = w.execAPI(r, o, false).Served
+		f.Ops = append(f.Ops, o)
+	}
+	f.Steps = w.steps
+	return f
+}
+
+func stepsCoq(steps []jstep) string {
+	xs := make([]string, len(steps))
+	for i, st := range steps {
+		xs[i] = "(" + qs(st.Path) + ", " + st.Res + ", " + qs(digest(st.Before)) + ", " + qs(digest(st.After)) + ",\n    " + st.Served.coq() + ",\n    " + st.Reload.coq() + ")"
+	}
+	return coqfmt.List(xs)
 }
 
 func (c caseRec) coq() string {
@@ -739,6 +1054,7 @@ func main() {
 	tier := flag.String("tier", "quick", "")
 	corpus := flag.String("corpus", "", "json file of fixed cases run first")
 	replay := flag.String("replay", "", "json file with cases (or an evidence replay file)")
+	nfree := flag.Int("free", 40, "number of model-free histories of HTTP requests (replication-mode requests included)")
 	flag.Parse()
 
 	w, err := newWorld()
@@ -770,6 +1086,24 @@ func main() {
 		if err != nil {
 			panic(err)
 		}
+		var fr struct{ Replay freeRec }
+		if err := json.Unmarshal(b, &fr); err == nil && fr.Replay.Via != "" && len(fr.Replay.Ops) > 0 {
+			// an evidence file of the API-path class: run the same operations again through the handler and show every request
+			w.reset(fr.Replay.Boot, false)
+			w.steps = nil
+			for i, o := range fr.Replay.Ops {
+				if i < len(fr.Replay.Steps) && !strings.HasPrefix(fr.Replay.Steps[i].Path, "setter:") {
+					w.forced = &fr.Replay.Steps[i] // the very request of the recorded run
+				}
+				w.execAPI(nil, o, fr.Replay.Via != "api-free")
+				w.forced = nil
+			}
+			for i, st := range w.steps {
+				fmt.Printf("%d POST %s %s\n   -> %d %s  served configuration %s -> %s%s\n", i, st.Path, st.Body, st.Code, st.Res, digest(st.Before), digest(st.After),
+					map[bool]string{true: "   <-- changed by a rejected request", false: ""}[st.Res != "ROk" && st.Before != st.After])
+			}
+			return
+		}
 		var l []caseIn
 		if err := json.Unmarshal(b, &l); err != nil {
 			var ev struct {
@@ -783,7 +1117,11 @@ func main() {
 		fixed = append(fixed, l...)
 	}
 	var all []caseRec
+	var frees []freeRec
 	emit := func(c caseRec) {
+		if c.In.Via == "api" {
+			frees = append(frees, freeRec{Via: "api", Boot: c.In.Boot, Ops: c.In.Ops, Steps: w.steps})
+		}
 		acc, rej, flt := 0, 0, 0
 		for i, o := range c.In.Ops {
 			R.Count("op:" + o.K)
@@ -837,18 +1175,60 @@ func main() {
 			if mal {
 				R.Count("stream:malformed-mixed")
 			}
-			emit(w.runCase(caseIn{Boot: defaultBoot(r)}, r, 10+r.Intn(25), mal, useEtcd))
+			via := ""
+			if k%2 == 1 {
+				via = "api"
+				R.Count("stream:api-path")
+			}
+			emit(w.runCase(caseIn{Boot: defaultBoot(r), Via: via}, r, 10+r.Intn(25), mal, useEtcd))
+		}
+		for k := 0; k < *nfree; k++ {
+			r := master.Fork(uint64(1000000 + k))
+			frees = append(frees, w.runFree(defaultBoot(r), r, 8+r.Intn(14), k%6 == 5))
+			R.Count("stream:api-free")
 		}
 	}
 	if err := cf.Flush(); err != nil {
 		panic(err)
 	}
 	R.CaseFiles = cf.Files
+	var raw []interface{}
+	for _, c := range all {
+		raw = append(raw, c)
+	}
+	if len(frees) > 0 {
+		for len(raw)%cf.PerFile != 0 { // keep bin/check's (file, index) -> cases.json arithmetic valid across the two kinds of file
+			raw = append(raw, nil)
+		}
+		jf := &coqfmt.CaseFile{Dir: *out, Prefix: "C18j", PerFile: cf.PerFile, Header: cf.Header, Type: "jcase",
+			Footer: "Definition M := Eval vm_compute in (@nil nat).\nDefinition D := Eval vm_compute in (@nil nat).\nDefinition V := Eval vm_compute in monitor_j_fails cases.\nPrint M. Print D. Print V.\n"}
+		for _, f := range frees {
+			rej, acc := 0, 0
+			for _, st := range f.Steps {
+				R.Count("api-res:" + st.Path + ":" + st.Res)
+				if st.Res == "ROk" {
+					acc++
+				} else {
+					rej++
+				}
+			}
+			txt := stepsCoq(f.Steps)
+			R.Case(txt, acc > 0 && rej > 0)
+			if err := jf.Add(txt); err != nil {
+				panic(err)
+			}
+			raw = append(raw, f)
+		}
+		if err := jf.Flush(); err != nil {
+			panic(err)
+		}
+		R.CaseFiles = append(R.CaseFiles, jf.Files...)
+	}
 	for k := range w.notes {
 		R.Notes = append(R.Notes, k)
 	}
 	sort.Strings(R.Notes)
-	b, _ := json.Marshal(all)
+	b, _ := json.Marshal(raw)
 	os.WriteFile(path.Join(*out, "cases.json"), b, 0o644)
 	if err := R.Write(path.Join(*out, "result.json")); err != nil {
 		panic(err)
